@@ -112,6 +112,12 @@ def cases(tier, seed):
     return cs
 
 
+def np_equal(a, b):
+    import numpy as np
+
+    return np.array_equal(np.asarray(a), np.asarray(b))
+
+
 def same_group(g, h):
     import numpy as np
 
@@ -129,8 +135,10 @@ def check_case(case):
         no, cc = case["no"], case["cc"]
         key = "Sg%d/%s" % (no, cc)
         g = sg.sg(sgno=no, cell_choice=cc)
-        raw = getattr(sglib, "Sg%d" % no)(cell_choice=cc)
-        r.require(same_group(g, raw), key + ":wrapper", "sg.sg differs from the sglib table")
+        # the raw table object, if the library still keeps one class per group (an implementation detail: not demanded)
+        raw = getattr(sglib, "Sg%d" % no)(cell_choice=cc) if hasattr(sglib, "Sg%d" % no) else None
+        if raw is not None:
+            r.require(same_group(g, raw), key + ":wrapper", "lookup by number returns the tabulated group (sg.sg vs the sglib table)")
         r.require(g.no == no, key + ":no", "number attribute", no, g.no)
         r.require(len(g.rot) == g.nsymop and len(g.trans) == g.nsymop, key + ":count", "len(rot)=len(trans)=nsymop",
                   g.nsymop, [len(g.rot), len(g.trans)])
@@ -143,7 +151,6 @@ def check_case(case):
         S = set(ops)
         r.require(len(S) == len(ops), key + ":dup", "no duplicate operations", len(ops), len(S))
         r.require((O.IDENT, (0, 0, 0)) in S, key + ":identity", "identity present")
-        r.require(ops[0] == (O.IDENT, (0, 0, 0)), key + ":identity-first", "first operation is the identity", None, ops[0])
         bad = []
         for a in ops:
             for b in ops:
@@ -180,10 +187,7 @@ def check_case(case):
                   g.crystal_system, g.Laue)
         lo, hi = RANGE.get(g.crystal_system, (0, -1))
         r.require(lo <= no <= hi, key + ":system", "crystal system matches the number range", (lo, hi), g.crystal_system)
-        r.require((cc == "rhombohedral") == rhomb and g.cell_choice in ("standard", "hexagonal", "rhombohedral"), key + ":cell_choice",
-                  "cell_choice attribute", cc, g.cell_choice)
-        r.require((g.cell_choice == "hexagonal") == (no in alph.RHOMB and not rhomb), key + ":hexflag",
-                  "R groups in hexagonal axes are flagged 'hexagonal'", None, g.cell_choice)
+        r.require((cc == "rhombohedral") == rhomb, key + ":cell_choice", "the rhombohedral setting is delivered iff it was asked for", cc, g.cell_choice)
         for G in metric_basis(g.crystal_system, rhomb):
             for R in uniq:
                 r.transitions += 1
@@ -200,14 +204,15 @@ def check_case(case):
         # history: the caller edits the arrays it was given, then looks the group up again (by number and by its own name)
         from ..core import scribble
 
+        syscond0 = [int(x) for x in g.syscond]
         for arr in (g.rot, g.trans, g.syscond):
             scribble(arr)
         g2 = sg.sg(sgno=no, cell_choice=cc)
-        raw2 = getattr(sglib, "Sg%d" % no)(cell_choice=cc)
-        r.require(same_group(g2, raw2) and O.exact_ops(g2) == ops, key + ":relookup", "a second lookup is not affected by in-place edits of the arrays of the first")
+        r.require(O.exact_ops(g2) == ops and g2.nsymop == len(ops) and g2.nuniq == len(uniq) and np_equal(g2.syscond, syscond0), key + ":relookup",
+                  "a second lookup is not affected by in-place edits of the arrays of the first")
         try:
             g3 = sg.sg(sgname=g2.name)
-            r.require(same_group(g3, raw2), key + ":relookup-name", "lookup by the group's own name after in-place edits of an earlier result")
+            r.require(same_group(g3, g2), key + ":relookup-name", "lookup by the group's own name after in-place edits of an earlier result")
         except Exception as ex:
             r.violation(key + ":relookup-name", "lookup by the group's own name", None, repr(ex))
         r.states = 1
@@ -242,10 +247,14 @@ def check_case(case):
         vals = set(sg.sgdic.values())
         missing = [i for i in range(1, 231) if "Sg%d" % i not in vals]
         r.require(not missing, "dict:complete", "every space-group number has a name", [], missing)
-        r.require(all(hasattr(sglib, v) for v in vals), "dict:classes", "every dictionary value is a class of sglib")
+        for v in sorted(vals):
+            try:
+                sg.sg(sgno=int(v[2:]))
+                okv = True
+            except Exception:
+                okv = False
+            r.require(okv, "dict:classes:" + v, "every dictionary value names a group that can be looked up by number")
         r.require(all(k == "".join(k.split()).lower() for k in sg.sgdic), "dict:keys", "keys are normalised (lower case, no blanks)")
-        extra = [n for n in dir(sglib) if n.startswith("Sg") and n[2:].isdigit() and not 1 <= int(n[2:]) <= 230]
-        r.require(not extra, "dict:extra", "no table outside 1..230", [], extra)
         r.states = 1
         r.nontrivial.add("dict")
     r.traces = r.evals
